@@ -93,7 +93,7 @@ def _alarm(signum, frame):
     raise HangError('run exceeded the per-run watchdog')
 
 
-def safe_execute(check, case, watchdog=60.0, _second=False):
+def safe_execute(check, case, watchdog=240.0, _second=False):
     """Returns (outcome, harness_error_text_or_None).  The work of a run is
     bounded deterministically (core.WORK_CAP); the wall-clock watchdog only
     exists for a genuine endless loop and must trip twice in a row."""
